@@ -295,3 +295,70 @@ Proof.
     destruct (0 <? stroke_width st); rewrite ?andb_true_r, ?andb_false_r;
     try (rewrite Hw0 by reflexivity); fin_ifs.
 Qed.
+
+(* ---- geometry of the two areas ---- *)
+Lemma ellipse_sok_ok e : ellipse_sok e -> ellipse_ok e.
+Proof. intros [[? ?] [? ?]]. unfold ellipse_ok, point_ok, size_ok, sbound, bound in *. lia. Qed.
+
+Lemma ellipse_offset_zero e : ellipse_ok e -> ellipse_offset e 0 = e.
+Proof. intros H. destruct e as [[x y] [w h]]. unf_ell. cbn. f_equal; f_equal; lia. Qed.
+
+Lemma ellipse_contains_degenerate e p :
+  ellipse_ok e -> sw (e_sz e) = 0 \/ sh (e_sz e) = 0 -> ellipse_contains e p = false.
+Proof.
+  intros [_ [Hw Hh]] Hz. rewrite ellipse_contains_arith by lia.
+  apply ell_in_false; first [lia | apply Z.square_nonneg | exact Hz].
+Qed.
+
+Theorem ellipse_stroke_area_grow e st :
+  ellipse_sok e -> style_ok st -> 1 <= sw (e_sz e) -> 1 <= sh (e_sz e) ->
+  ellipse_stroke_area e st =
+  Ell (P (px (e_tl e) - outside_stroke_width st) (py (e_tl e) - outside_stroke_width st))
+      (S (sw (e_sz e) + 2 * outside_stroke_width st) (sh (e_sz e) + 2 * outside_stroke_width st)).
+Proof.
+  intros He Hs Hw Hh. destruct (offsets_range st Hs) as (E1 & R1 & _). unfold ellipse_stroke_area. rewrite E1.
+  apply ellipse_offset_grow; [apply ellipse_sok_ok, He|assumption|assumption|unfold sbound, bound in *; lia].
+Qed.
+
+Theorem ellipse_fill_area_shrink e st :
+  ellipse_sok e -> style_ok st -> stroke_kind st = Solid ->
+  let ins := inside_stroke_width st in
+  let fa := ellipse_fill_area e st in
+  (2 * ins < sw (e_sz e) -> px (e_tl fa) = px (e_tl e) + ins /\ sw (e_sz fa) = sw (e_sz e) - 2 * ins) /\
+  (2 * ins < sh (e_sz e) -> py (e_tl fa) = py (e_tl e) + ins /\ sh (e_sz fa) = sh (e_sz e) - 2 * ins) /\
+  (sw (e_sz e) <= 2 * ins \/ sh (e_sz e) <= 2 * ins -> forall p, ellipse_contains fa p = false).
+Proof.
+  intros He Hs Hk ins fa. destruct (offsets_range st Hs) as (_ & _ & R2 & E2). rewrite Hk in E2.
+  subst fa. unfold ellipse_fill_area. rewrite E2. fold ins in R2 |- *. pose proof (ellipse_sok_ok e He) as Hok.
+  destruct (Z.eq_dec ins 0) as [->|Hn].
+  - change (- 0) with 0. rewrite ellipse_offset_zero by assumption. split; [lia|split; [lia|]].
+    intros Hz p. apply ellipse_contains_degenerate; [assumption|]. destruct Hok as [_ [? ?]]. lia.
+  - destruct (ellipse_offset_shrink e ins Hok ltac:(unfold sbound, bound in *; lia)) as (G1 & G2 & G3 & G4).
+    split; [exact G1|split; [exact G3|]].
+    intros Hz p. apply ellipse_contains_degenerate.
+    + apply ellipse_offset_ok; [assumption|unfold sbound in *; lia].
+    + destruct Hz; [left; apply G2|right; apply G4]; assumption.
+Qed.
+
+Theorem ellipse_inside_stroke_stays_in e st p :
+  ellipse_sok e -> style_ok st -> stroke_alignment st = Inside ->
+  render (ellipse_draw_styled e st) p <> None -> ellipse_contains e p = true.
+Proof.
+  intros He Hs Ha. rewrite ellipse_styled_spec by assumption. destruct (ellipse_areas e st He Hs) as (HA & HB & Hcc).
+  assert (ellipse_stroke_area e st = e) as E.
+  { unfold ellipse_stroke_area, stroke_area_offset, outside_stroke_width. rewrite Ha. apply ellipse_offset_zero, ellipse_sok_ok, He. }
+  unfold styled_map. pose proof (econcentric_sub _ _ p HA HB Hcc) as Hsub. rewrite E in *.
+  destruct (ellipse_contains (ellipse_fill_area e st) p); [intros _; apply Hsub; reflexivity|].
+  destruct (ellipse_contains e p); [reflexivity|]. cbn. congruence.
+Qed.
+
+Theorem ellipse_outside_stroke_stays_out e st p :
+  ellipse_sok e -> style_ok st -> stroke_alignment st = Outside ->
+  ellipse_contains e p = true -> render (ellipse_draw_styled e st) p = fill_color st.
+Proof.
+  intros He Hs Ha Hp. rewrite ellipse_styled_spec by assumption.
+  assert (ellipse_fill_area e st = e) as E.
+  { unfold ellipse_fill_area, fill_area_offset, inside_stroke_width. rewrite Ha.
+    destruct (stroke_kind st); apply ellipse_offset_zero, ellipse_sok_ok, He. }
+  unfold styled_map. rewrite E, Hp. reflexivity.
+Qed.
